@@ -169,6 +169,7 @@ class C14(Prop):
                 if scn["mode"] == "layers":
                     c.compile()
                 rec["layout"] = circ.layout_of(c, orig, gates)
+                rec.update(circ.describe(be, c, items))
                 if scn["init"] == "tab":
                     S = be.state(scn["rows"], scn["r"])
                 else:
